@@ -215,6 +215,7 @@ class C08(Harness):
         else:
             ops.append(['close'])
         ops.append(['update2', 70, 71])
+        ops.append(['srcboth', 'S1', s['S1']['v'] + 1, s['S1']['w'] + 1])      # two parameters of one source changed in one batch
         return ops
 
     def apply(self, w, model, op):
@@ -245,6 +246,10 @@ class C08(Harness):
                     raise
             # a linked value that is invalid for the target is not installed; what the target holds meanwhile is not specified
             model['stale'] = invalid
+        elif k == 'srcboth':
+            model['src'][op[1]]['v'] = op[2]
+            model['src'][op[1]]['w'] = op[3]
+            w[op[1]].param.update(v=op[2], w=op[3])
         elif k == 'root':
             w['R'].rx.value = op[1]
             model['src']['R'] = op[1]
